@@ -136,7 +136,8 @@ pub fn open_db(dir: &Path, cfg: &Cfg) -> Result<Database, String> {
             .total_buckets(cfg.nb)
             .bucket_ids_from_range(0..cfg.nb)
             .reader_threads(2)
-            .writer_threads(cfg.nb)
+            // 4 or 6 buckets share 2 writer threads (the builder requires threads to divide buckets): several buckets per writer thread
+            .writer_threads(if cfg.nb >= 4 { 2 } else { cfg.nb })
             .sync_interval(Duration::from_millis(cfg.sync_ms))
             .sync_idle_interval(Duration::from_millis(cfg.sync_ms))
             .max_batch_size(1_000_000)
